@@ -121,6 +121,9 @@ class C03(PropertyCheck):
     def oracle(self, case, impl_out, profile):
         return pyarchive.judge(case.line, impl_out)
 
+    def agree(self, case, impl_out, model_out, profile):
+        return impl_out == pyarchive.mask_lossy(impl_out, model_out)
+
     def shrink_candidates(self, case):
         e, level, ops = pyarchive.parse_case(case.line)
         for i in range(len(ops) - 1, -1, -1):
